@@ -19,7 +19,8 @@ TECHNIQUE = "metamorphic runtime monitor (pairs / families of executions of the 
 RULE = ("family = strategy x series (2..30 points) x n x parameters, with one of: value map (generic reals, or exact "
         "maps for adaptive strategies, negative scales included), time map (generic c>0, d), single-average "
         "perturbation at a random position, unit-vector weight matrix (non-adaptive, m<=12). non-trivial: "
-        "non-constant series and a map different from the identity; distinct by case index.")
+        "non-constant series and a map different from the identity; distinct by case index."
+        " Also: changes of unit by 2**+-(20..60) (exact) and 10**+-12 (generic), float32 / float16 averages, a second object of the same class in between.")
 REQUIRED_MONITORS = ["c07:value_map", "c07:time_map", "c07:locality", "c07:weights"]
 ASSUMPTIONS = ["strategy parameters in the documented ranges; x strictly increasing"]
 NSHARDS = 16
